@@ -1,13 +1,12 @@
 (* Extract_params.v -- extraction of the property-tree model (Ptree.v), of the regenerated
    tables (ParamsGen.v) and of the C-API model (Capi.v) to OCaml.  Directives (trusted
-   base): ExtrOcamlBasic, ExtrOcamlNatInt, ExtrOcamlZBigInt, ExtrOcamlNativeString
-   (Coq string -> OCaml string).  The scalar base modules are extracted too because the
+   base): ExtractCommon.v (ExtrOcamlBasic, ExtrOcamlNatInt, ExtrOcamlZBigInt, Z.ggcd) plus
+   ExtrOcamlNativeString (Coq string -> OCaml string).  The scalar base modules are extracted too because the
    shared ocaml/io.ml refers to them. *)
-From Coq Require Import Extraction ExtrOcamlBasic ExtrOcamlNatInt ExtrOcamlZBigInt ExtrOcamlNativeString.
+From Amgcl Require Import ExtractCommon.
+From Coq Require Import ExtrOcamlNativeString.
 From Coq Require Import QArith Qcanon.
 From Amgcl Require Import Scalar QcInst Vec Crs Ptree ParamsGen.
-Extraction Blacklist List String Int Nat.
-Set Extraction Optimize.
 Separate Extraction
   QcInst.QcS Scalar.is_zero Scalar.smax Scalar.smin
   Vec Crs Ptree ParamsGen.
